@@ -886,7 +886,7 @@ pub fn run_c02(ctx: &Ctx) -> i32 {
         sector_all_up_to: 4,
         sector_stride: tier.pick(7, 3),
         tropical_routing: true,
-        points_per_case: tier.pick(3000, 40000),
+        points_per_case: tier.pick(3000, 8000),
         basis_orbit: true,
         basis_orbit_min_loops: 3,
     };
@@ -925,7 +925,7 @@ pub fn c16b(ctx: &Ctx) -> Acc {
             sector_all_up_to: 3,
             sector_stride: tier.pick(11, 3),
             tropical_routing: false,
-            points_per_case: tier.pick(600, 10000),
+            points_per_case: tier.pick(600, 3000),
             basis_orbit: false,
         basis_orbit_min_loops: 2,
         };
